@@ -24,6 +24,9 @@ What is a PARAMETER of the model and not modelled here:
 * the values of `Epoch.leap_seconds(year, month)`, of α / Δψ / ε in `equation_of_time`: inputs.
 -/
 import Pymeeus.Gen.@K@.EpochCore
+--@only F
+import Pymeeus.Gen.F.SunEarth
+--@end
 namespace Pymeeus.Gen@K@
 namespace SunEvents
 open Pymeeus Pymeeus.P@K@
@@ -188,6 +191,21 @@ def get_equinox_solstice (mk : Num → PyRes Num) (sunLon : Num → Num) (fuel :
         | none => .ok none
         | some (.error err) => .error err
         | some (.ok e) => .ok (some e)
+
+--@only F
+/-- `Sun.apparent_geocentric_position(epoch)[0]._deg` as modelled by templates/SunEarth.lean (property
+    C08: VSOP87 Earth, FK5, nutation, aberration, reflected to the Sun).  An exception inside that
+    model becomes NaN, which cannot agree with any instant the implementation returns. -/
+def sunLonHelio (jde : Num) : Num :=
+  match Helio.sun_apparent_geocentric_position jde true with
+  | .ok (l, _, _) => l
+  | .error _ => 0.0 / 0.0
+
+/-- `Sun.get_equinox_solstice(year, target)` from the year alone: the loop above with the model's own
+    constructor and the modelled solar longitude; fuel 64 (the implementation makes 3-4 passes). -/
+def get_equinox_solstice_year (year : Int) (target : String) : PyRes (Option Num) :=
+  get_equinox_solstice mkEpoch sunLonHelio 64 year target
+--@end
 
 /-! ## Sun.equation_of_time (Sun.py:567) -/
 
